@@ -152,18 +152,19 @@ def run_unit(unit, drv, res, seed, tier):
                         e = ('call', name, exprs) if st == 'global' else ('mcall', exprs[0], name, exprs[1:])
                         if st == 'method' and exprs[0][0] == 'id' and exprs[0][1].startswith('ident'):
                             continue
-                        items.append((e, vs, name, nargs, arity))
+                        eff = nargs - (1 if st == 'method' and flavour not in ('this', 'thisopt', 'posthis') else 0)
+                        items.append((e, vs, name, nargs, arity, eff < arity))
         cases, metas = [], []
-        for e, vs, name, nargs, arity in items:
+        for e, vs, name, nargs, arity, short in items:
             try:
                 exp, ev = run_once(e, dict(vs), host=HOST)
             except Unsupported:
                 res.count("skipped:unsupported")
                 continue
             cases.append(exec_case(len(cases), render_min(e), vs))
-            metas.append((exp, ev.log, name, nargs, arity))
+            metas.append((exp, ev.log, name, nargs, arity, short))
         out = drv.run(cases, 'catalogue')
-        for c, r, (exp, elog, name, nargs, arity) in zip(cases, out, metas):
+        for c, r, (exp, elog, name, nargs, arity, short) in zip(cases, out, metas):
             res.evaluations += 1
             if nargs >= 2 or exp[0] == 'err':
                 res.nt(c["src"] + str(c.get("vars")))
@@ -180,6 +181,10 @@ def run_unit(unit, drv, res, seed, tier):
                 continue
             if nargs > arity and o[0] == 'err' and o[1] == 'arg_count' and not [x for x in log if x and x[0] == name]:
                 res.count("surplus-arguments:error-accepted")
+                continue
+            if short and o[0] == 'err' and exp[0] == 'err' and not [x for x in log if x and x[0] == name]:
+                # missing arguments: "yields an execution error ... never an invocation" - which error is open
+                res.count("missing-arguments:any-error-accepted")
                 continue
             if not same_outcome(exp, o):
                 res.violation(mismatch_kind(exp, o), 'host function ' + name.split('_')[0][:2], 'outcome differs from the signature model', c,
